@@ -60,9 +60,13 @@ CHECKS.update({
          "Same enumeration as C05; get_traceback() must equal the evaluator's stack at the raise (elements, arguments, source lines), get_error() the injected object, both empty after a later success.",
          "Line numbers not asserted for None-returned/depth errors.", "6/C17"),
 })
+CHECKS.update({
+ "C18": ("exploration", "seeded IOSpec histories over one or two models, identity bookkeeping invariants after every step",
+         "new_pandas on models and spaces with colliding names and file locations (incl. hostile creations), plain assignment of the same value to more names, rebinding, deletion in both orders, update_pandas, saving, closing; per model the specs must be exactly the values bound to at least one reference (identity), files unique, get_spec consistent, self-checks pass, rejected creations leave nothing, saved files read back.",
+         "csv PandasData only; real pandas and files on tmpfs; no faults injected.", "6/C18"),
+})
 NA = {
  "C15": "not built in this round: the export twin (exported package run in a modelx-free subprocess) was designed (DESIGN.md 6/C15) but there was no time to build and triage it; the property also has no fault or schedule dimension - nothing is claimed",
- "C18": "not built in this round: the IOSpec history machine (DESIGN.md 6/C18) was not built for lack of time; nothing is claimed",
  "C20": "quantified over inputs only (source-text layouts of a pure function of that text): no schedule, clock, fault, I/O interleaving or history for a simulator to own; covering it means a grammar-based text fuzzer, which is a different technique",
 }
 ALL = ["C%02d" % i for i in range(1, 21)]
